@@ -53,7 +53,7 @@ func buildSkeletons() []skeleton {
 	}
 	joins := []jk{
 		{"JOIN", " ON true", true}, {"INNER JOIN", " ON true", false}, {"LEFT JOIN", " ON true", false},
-				{"FULL OUTER JOIN", " ON true", false}, {"CROSS JOIN", "", true},
+		{"FULL OUTER JOIN", " ON true", false}, {"CROSS JOIN", "", true},
 		{"NATURAL JOIN", "", false}, {"SEMI JOIN", " ON true", false},
 		{"ASOF JOIN", " USING (time)", true},
 		{"POSITIONAL JOIN", "", false}, {"JOIN LATERAL", " ON true", true}, {"CROSS JOIN LATERAL", "", false},
@@ -102,6 +102,8 @@ type filler struct {
 	BaseK  string // key of the simpler filler tried when minimising ("" = none)
 	Key    string // unique key
 	Base   int    // resolved index of BaseK, -1 when none
+	Base2K string // a second simpler filler, tried when Base does not reproduce the violation
+	Base2  int
 }
 
 const (
@@ -119,7 +121,7 @@ var pathVariants = []pathVariant{
 	{"wildcard-db", "{ROOT}/*/secrets/**/*.parquet", false},
 	{"dotdot", "{ROOT}/db1/../db2/secrets/**/*.parquet", false},
 	{"whole-root", "{ROOT}/**/*.parquet", true},
-		{"double-slash", "{ROOT}//db2//secrets/**/*.parquet", false},
+	{"double-slash", "{ROOT}//db2//secrets/**/*.parquet", false},
 	{"file-scheme", "file://{ROOT}/db2/secrets/**/*.parquet", false},
 	{"authorised-db1", "{ROOT}/db1/cpu/**/*.parquet", true},
 }
@@ -215,19 +217,18 @@ func buildFillers(catalog []string) []filler {
 		{"dq-db", `"db2".secrets`}, {"dq-table", `db2."secrets"`}, {"dq-both", `"db2"."secrets"`}, {"dq-whole", `"db2.secrets"`},
 		{"bt-both", "`db2`.`secrets`"}, {"bt-whole", "`db2.secrets`"},
 		{"sq-whole", `'db2.secrets'`}, {"dollar-whole", `$$db2.secrets$$`}, {"estr-whole", `E'db2.secrets'`},
-		{"dq-escaped-quote", `"db2""".secrets`}, 
+		{"dq-escaped-quote", `"db2""".secrets`},
 		{"space-dot", "db2 . secrets"}, {"comment-before-dot", "db2/**/.secrets"}, {"comment-after-dot", "db2./**/secrets"},
 		{"newline-dot", "db2\n.secrets"}, {"line-comment-dot", "db2 --x\n.secrets"}, {"comment-before-name", "/* x */ db2.secrets"},
 		{"line-comment-before-name", "--x\ndb2.secrets"}, {"nested-comment-before-name", "/*/**/*/db2.secrets"},
 		{"nbsp-before-dot", "db2 .secrets"}, {"nbsp-after-dot", "db2. secrets"},
-		{"upper", "DB2.SECRETS"}, 
-		{"catalog-qualified", "memory.db2.secrets"}, 
+		{"upper", "DB2.SECRETS"},
+		{"catalog-qualified", "memory.db2.secrets"},
 		{"dq-dotdot-db", `"db1/../db2".secrets`}, {"dq-dotdot-table", `db1."../db2/secrets"`}, {"dq-dotdot-both", `db1."cpu/../../db2/secrets"`},
-		{"dq-slash", `"db2/secrets"`}, 
+		{"dq-slash", `"db2/secrets"`},
 		{"ident-lookalike-db", "__IDENT_0__.secrets"}, {"ident-lookalike-table", "db2.__IDENT_0__"}, {"ident-lookalike", "__IDENT_0__"},
 		{"str-lookalike", "__STR_0__"}, {"str-lookalike-table", "db2.__STR_0__"}, {"frommask-lookalike", "db2.__FROM_MASK_0__"},
-		{"only", "ONLY db2.secrets"}, {"parenthesised", "(db2.secrets)"}, 
-		
+		{"only", "ONLY db2.secrets"}, {"parenthesised", "(db2.secrets)"},
 	}
 	for _, n := range names {
 		add("name:"+n.k, "name:"+n.k, n.t, "name:qualified", coreNames[n.k])
@@ -256,15 +257,18 @@ func buildFillers(catalog []string) []filler {
 			if pv.name != "glob" && qs.k != "sq" && qs.k != "dq" && qs.k != "dollar" && qs.k != "estr" {
 				continue
 			}
-			// simpler quote style of the same path first, then the canonical glob
-			base := "path:sq:" + pv.name
-			if qs.k == "sq" {
-				base = "path:sq:glob"
-				if pv.name == "glob" {
+			// simpler: the same quote style around the canonical glob, else the plain quote around the same path
+			base, base2 := "path:"+qs.k+":glob", "path:sq:"+pv.name
+			if pv.name == "glob" {
+				base, base2 = "path:sq:glob", ""
+				if qs.k == "sq" {
 					base = ""
 				}
+			} else if qs.k == "sq" {
+				base2 = ""
 			}
 			add("path:"+qs.k+":"+pv.name, "path:"+qs.k, qs.q(pv.p), base, (qs.core && pv.name == "glob") || (qs.k == "sq" && pv.core))
+			f[len(f)-1].Base2K = base2
 		}
 	}
 	f = append(f, filler{Key: "path:sq-glued", Family: "path:glued", Text: "'" + p0 + "'", Glue: true, BaseK: "path:sq:glob", Core: true})
@@ -304,7 +308,10 @@ func buildFillers(catalog []string) []filler {
 		{"arg:list", func(fn, a string) string { return fn + "([" + sqQuote(a) + "])" }, true},
 		{"arg:dollar", func(fn, a string) string { return fn + "($$" + a + "$$)" }, false},
 		{"arg:estr", func(fn, a string) string { return fn + "(E" + sqQuote(a) + ")" }, false},
-		{"arg:concat", func(fn, a string) string { i := len(a) / 2; return fn + "(" + sqQuote(a[:i]) + " || " + sqQuote(a[i:]) + ")" }, true},
+		{"arg:concat", func(fn, a string) string {
+			i := len(a) / 2
+			return fn + "(" + sqQuote(a[:i]) + " || " + sqQuote(a[i:]) + ")"
+		}, true},
 		{"arg:spaced", func(fn, a string) string { return fn + "(\n" + sqQuote(a) + " )" }, false},
 	}
 	for _, u := range uniSpaces {
@@ -364,6 +371,16 @@ func buildFillers(catalog []string) []filler {
 			must(fmt.Errorf("duplicate filler key %s", f[i].Key), "grammar")
 		}
 		idx[f[i].Key] = i
+	}
+	for i := range f {
+		f[i].Base2 = -1
+		if f[i].Base2K != "" {
+			b, ok := idx[f[i].Base2K]
+			if !ok {
+				must(fmt.Errorf("filler %s: unknown base %s", f[i].Key, f[i].Base2K), "grammar")
+			}
+			f[i].Base2 = b
+		}
 	}
 	for i := range f {
 		f[i].Base = -1
